@@ -23,6 +23,7 @@ stop_words = {
     "break",
     "class",
     "continue",
+    "dataclass",
     "def",
     "del",
     "dict",
